@@ -312,6 +312,65 @@ pub fn check_full_scan(d: &Driver, s: SeqNo, what: &str, out: &mut Vec<Violation
             check(&got, "rev", out);
         }
     }
+    // one iterator consumed from both ends: (front, then everything from the back), (back, then
+    // everything from the front), strictly alternating. Front items ascending + back items
+    // descending must reassemble to the same ordered scan.
+    for (name, lead_front, lead_back, alternate) in [("f1-back", 1usize, 0usize, false), ("b1-front", 0, 1, false), ("alternate", 0, 0, true)] {
+        let mut it = t.iter(s, None);
+        let mut front: Vec<Kv> = vec![];
+        let mut back: Vec<Kv> = vec![];
+        let mut err: Option<String> = None;
+        let mut done = false;
+        let mut take = |from_front: bool, it: &mut Box<dyn DoubleEndedIterator<Item = lsm_tree::IterGuardImpl> + Send>, front: &mut Vec<Kv>, back: &mut Vec<Kv>| -> Result<bool, String> {
+            let g = if from_front { it.next() } else { it.next_back() };
+            match g {
+                None => Ok(false),
+                Some(g) => {
+                    let (k, val) = g.into_inner().map_err(|e| format!("{e:?}"))?;
+                    if from_front {
+                        front.push((k.to_vec(), val.to_vec()));
+                    } else {
+                        back.push((k.to_vec(), val.to_vec()));
+                    }
+                    Ok(true)
+                }
+            }
+        };
+        for _ in 0..lead_front {
+            match take(true, &mut it, &mut front, &mut back) {
+                Ok(more) => done |= !more,
+                Err(e) => err = Some(e),
+            }
+        }
+        for _ in 0..lead_back {
+            match take(false, &mut it, &mut front, &mut back) {
+                Ok(more) => done |= !more,
+                Err(e) => err = Some(e),
+            }
+        }
+        let mut side = lead_front == 0 && lead_back > 0 || alternate;
+        while !done && err.is_none() {
+            // f1-back drains from the back, b1-front from the front, alternate switches every step
+            let from_front = if alternate {
+                side = !side;
+                !side
+            } else {
+                lead_back > 0
+            };
+            match take(from_front, &mut it, &mut front, &mut back) {
+                Ok(more) => done = !more,
+                Err(e) => err = Some(e),
+            }
+        }
+        let _ = side;
+        if let Some(e) = err {
+            out.push(v(format!("scan-err-{name}@{what}"), format!("iter({s}) consumed from both ends ({name}) Err {e}")));
+            continue;
+        }
+        back.reverse();
+        front.extend(back);
+        check(&front, name, out);
+    }
 }
 
 // ---------------------------------------------------------------------------
